@@ -17,6 +17,15 @@ Statement-by-statement model of `combine` = `combine_with_weight_fn(.., number_o
   `encodeOk` = `StandardPath::wire_valid`; `pathExpiry` = `StandardPath::expiration`);
 * `has_loops`, `filter_duplicates`  →  `hasLoops`, `filterDuplicates`.
 
+`has_loops` unwraps `path.metadata` and `metadata.interfaces` (two `unwrap()`s): `PathSolution::path`
+returns `Some(path)` only through its last statement, which builds the path with
+`Some(PathMetadata { interfaces: Some(interfaces), .. })`; the model's `Path` therefore always carries
+`ifs` and these two sites are not `Site`s.  Likewise `ScionPath::new` → `StandardPathView::expiration`
+(two `expect`s on the hop-field minimum of a view segment / on the `u32` conversion) is reached only
+with the encoding of a `wire_valid` path (every segment non-empty, `exp : u8`); the same arithmetic is
+`pathExpiry` (site `expTooLarge`).  These four sites are covered by the harness oracle `C19:panic`,
+not by `total`.
+
 Every `expect` / `unwrap` / slice / unsigned subtraction / `try_push` / `panic!` site of the code is a
 `Site` and is reported as `.error site`, so that "never panics" is a theorem about this model
 (`Theorems/C19.lean`).  The model is of the code *after* the commit `fix: combinator must not panic
@@ -143,18 +152,27 @@ deriving DecidableEq, Repr, Inhabited
 
 def Sol.new (v : Vertex) : Sol := ⟨[], v, 0⟩
 
-/-- `PathSolution::valid_next_seg` (tables from the Rust source) -/
-def validNext (edges : List GEdge) (n : InSeg) : Bool :=
+/-- `SolutionEdge::in_construction_direction`: the edge ends at an AS vertex and that AS is the last AS
+of its segment (`self.dst.ia().is_some_and(|dst| Some(dst) == segment.last_ia())`, no `expect`).
+With `seg.core = false`: `true` = `is_down`, `false` = `is_up`. -/
+def GEdge.consDir (e : GEdge) : Bool :=
+  match e.dst.ia? with
+  | some d => some d == e.seg.seg.lastIa
+  | none => false
+
+/-- `PathSolution::valid_next_seg(&next)` (tables from the Rust source; since the commit `fix: combinator
+must not offer valley paths` they depend on the direction in which an edge traverses its segment) -/
+def validNext (edges : List GEdge) (n : GEdge) : Bool :=
   match edges with
   | [] => true
-  | [a] => valid2 a.seg.core n.core
-  | [a, b] => valid3 a.seg.core b.seg.core n.core
+  | [a] => valid2 a.seg.core a.consDir n.seg.core n.consDir
+  | [a, b] => valid3 a.seg.core a.consDir b.seg.core b.consDir n.seg.core n.consDir
   | _ => false
 
 /-- all `try_add_edge` successes of one popped solution -/
 def extend (g : List GEdge) (s : Sol) : List Sol :=
   g.filterMap fun e =>
-    if e.src = s.cur ∧ validNext s.edges e.seg = true then
+    if e.src = s.cur ∧ validNext s.edges e = true then
       some ⟨s.edges ++ [e], e.dst, s.cost + e.edge.weight⟩
     else none
 
@@ -296,10 +314,19 @@ def requiredSize (segs : List PSeg) : Nat :=
   META_SIZE + ((if l0 > 0 then 1 else 0) + (if l1 > 0 then 1 else 0) + (if l2 > 0 then 1 else 0)) * INFO_SIZE
     + (l0 + l1 + l2) * HOP_SIZE
 
-/-- `StandardPath::wire_valid` with `current_info_field = current_hop_field = 0` -/
+/-- `StandardPath::hop_field_count` -/
+def hopFieldCount (segs : List PSeg) : Nat := (segs.map (·.hops.length)).sum
+
+/-- `StandardPath::wire_valid` with `current_info_field = current_hop_field = 0`: the rejection tests
+`WIRE_VALID_CHECKS` (extracted list; the translator fails when the list in the source changes) in
+source order — size, #segments, no segment, `0 >= hop_field_count`, `0 > MAX_TOTAL_HOPS`,
+`hop_field_count > MAX_TOTAL_HOPS + 1` (since `fix: StandardPath::wire_valid must reject paths with more
+than 64 hop fields`), (`0 >= info_field_count` = no segment), then per segment `> MAX_SEGMENT_HOPS` and
+empty.  `InfoField::wire_valid` / `HopField::wire_valid` accept everything. -/
 def encodeOk (segs : List PSeg) : Bool :=
   decide (requiredSize segs ≤ PATH_MAX_SIZE) && decide (segs.length ≤ MAX_SEGMENTS) && !segs.isEmpty &&
-  decide (0 < (segs.map (·.hops.length)).sum) &&
+  decide (0 < hopFieldCount segs) && decide (0 ≤ MAX_TOTAL_HOPS) &&
+  decide (hopFieldCount segs ≤ TOTAL_HOPS_LIMIT) &&
   segs.all fun s => decide (s.hops.length ≤ MAX_SEGMENT_HOPS) && !s.hops.isEmpty
 
 /-- the encoded meta header has 6-bit length fields; the view is valid iff the buffer size computed
